@@ -315,13 +315,16 @@ Section Values.
     | NTS => s
     | TS => {| v_init := if vf_ts_fresh G then false else h_ginit c; v_cfg := h_garbage c |}
     end.
+  (** one wrapped call: ctor (get; parse the file over what the previous call left) ; use ; dtor  ->  (state left behind, effective configuration) *)
+  Definition cfg_call (v : variant) (s : vstate) (c : hcall) : vstate * cfg :=
+    let s1 := vctor v (ventry v s c) (h_file c) in
+    let s2 := {| v_init := h_use_init c (v_init s1); v_cfg := h_use c (v_cfg s1) |} in
+    (vdtor v s2, v_cfg s1).
   (** effective configuration of every call of a history *)
   Fixpoint effs (v : variant) (s : vstate) (h : list hcall) : list cfg :=
     match h with
     | [] => []
-    | c :: h' => let s1 := vctor v (ventry v s c) (h_file c) in
-                 let s2 := {| v_init := h_use_init c (v_init s1); v_cfg := h_use c (v_cfg s1) |} in
-                 v_cfg s1 :: effs v (vdtor v s2) h'
+    | c :: h' => snd (cfg_call v s c) :: effs v (fst (cfg_call v s c)) h'
     end.
   Definition dflt : cfg := dv.
 End Values.
